@@ -109,6 +109,7 @@ type BuildReq struct {
 	PreferIndex bool     `json:"preferindex,omitempty"`
 	GC          string   `json:"gc,omitempty"` // "" | "before": run Project.GC() after load, before the build (as the test helper does)
 	NoRun       bool     `json:"norun,omitempty"`
+	Order       []string `json:"order,omitempty"` // package load order imposed through vf.gate (empty = free-running)
 	// crash injection (child processes only)
 	CrashSite  string `json:"crashsite,omitempty"`
 	CrashLabel string `json:"crashlabel,omitempty"`
@@ -321,6 +322,7 @@ func HashTree(dir string, skip func(rel string) bool) string {
 // RunBuild performs one build in this process on a fresh Load.
 func RunBuild(env *Env, req BuildReq, logOff int) (res BuildResult, newOff int) {
 	rec := &Recorder{}
+	env = &Env{Base: env.Base, Order: req.Order}
 	func() {
 		defer func() {
 			if p := recover(); p != nil {
